@@ -583,121 +583,128 @@ func c20Scenarios(tier string) []*world.Scenario {
 				if len(healthy) < 2 {
 					continue
 				}
-				m := mask
-				sc := &world.Scenario{Nodes: nodes, Bound: 0, FreeKinds: []string{"intn"}, IntnChoice: true, Horizon: 300, Family: "spread"}
-				sc.AfterBoot = func(w *world.World) {
-					for i := 0; i < nrep; i++ {
-						if m&(1<<i) != 0 {
-							// the health monitor banned this replica a long time ago: flag set, lift time passed
-							core.VerifSetBan(fmt.Sprintf("10.0.1.%d:7000", i+1), true, false)
+				for _, pw := range []string{"", "secret"} {
+					if pw != "" && (cmd == "hscan" || mask != 0) {
+						continue
+					}
+					m := mask
+					// nodes behave like cluster nodes: a replica serves a read only on a connection switched to READONLY,
+					// otherwise it answers -MOVED <master>; a read only counts as served by the node that answered it with data
+					sc := &world.Scenario{Nodes: nodes, Bound: 0, FreeKinds: []string{"intn"}, IntnChoice: true, Horizon: 300, Family: "spread", CheckOwner: true, Password: pw}
+					sc.AfterBoot = func(w *world.World) {
+						for i := 0; i < nrep; i++ {
+							if m&(1<<i) != 0 {
+								// the health monitor banned this replica a long time ago: flag set, lift time passed
+								core.VerifSetBan(fmt.Sprintf("10.0.1.%d:7000", i+1), true, false)
+							}
 						}
 					}
-				}
-				key := keysA[0]
-				var r Req
-				switch cmd {
-				case "get":
-					r = GetReq(key)
-				case "set":
-					r = SetReq(key, "v")
-				case "hscan":
-					r = Req{Kind: "HSCAN", Bytes: world.Cmd("hscan", key, "0"), Expect: nil}
-				case "mget":
-					r = MGetReq(key, keysB[0])
-				}
-				// a run of reads in one execution (closed loop), so that an implementation that rotates deterministically
-				// instead of drawing at random is judged by the same possibilistic criterion
-				run := len(healthy) + 1
-				if cmd == "set" || cmd == "hscan" {
-					run = 2
-				}
-				var rr []Req
-				for j := 0; j < run; j++ {
-					rr = append(rr, r)
-				}
-				cs := ClientOf(rr, false)
-				for j := range cs.Chunks {
-					cs.Chunks[j].WaitReplies = j
-				}
-				sc.Clients = []world.ClientSpec{cs}
-				sc.Name = fmt.Sprintf("C20/%drep/banned-mask%d/%s", nrep, mask, cmd)
-				write := cmd == "set" || cmd == "hscan"
-				hl := append([]string{}, healthy...)
-				sc.Observe = func(w *world.World) string {
-					set := map[string]bool{}
-					for _, rec := range w.DataCmds("") {
-						if hasKey(rec.Args, key) {
-							set[rec.Addr] = true
-						}
+					key := keysA[0]
+					var r Req
+					switch cmd {
+					case "get":
+						r = GetReq(key)
+					case "set":
+						r = SetReq(key, "v")
+					case "hscan":
+						r = Req{Kind: "HSCAN", Bytes: world.Cmd("hscan", key, "0"), Expect: nil}
+					case "mget":
+						r = MGetReq(key, keysB[0])
 					}
-					var l []string
-					for a := range set {
-						l = append(l, a)
+					// a run of reads in one execution (closed loop), so that an implementation that rotates deterministically
+					// instead of drawing at random is judged by the same possibilistic criterion
+					run := len(healthy) + 1
+					if cmd == "set" || cmd == "hscan" {
+						run = 2
 					}
-					sort.Strings(l)
-					return strings.Join(l, ",")
-				}
-				sc.Check = func(w *world.World) []world.Violation {
-					var vs []world.Violation
-					for _, rec := range w.DataCmds("") {
-						if !hasKey(rec.Args, key) {
-							continue
+					var rr []Req
+					for j := 0; j < run; j++ {
+						rr = append(rr, r)
+					}
+					cs := ClientOf(rr, false)
+					for j := range cs.Chunks {
+						cs.Chunks[j].WaitReplies = j
+					}
+					sc.Clients = []world.ClientSpec{cs}
+					sc.Name = fmt.Sprintf("C20/%drep/banned-mask%d/%s/pw=%v", nrep, mask, cmd, pw != "")
+					write := cmd == "set" || cmd == "hscan"
+					hl := append([]string{}, healthy...)
+					sc.Observe = func(w *world.World) string {
+						set := map[string]bool{}
+						for _, rec := range w.DataCmds("") {
+							if hasKey(rec.Args, key) && !world.IsError(rec.Reply) {
+								set[rec.Addr] = true
+							}
 						}
-						ok := rec.Addr == AddrA
-						if !write {
-							// any replica of A is inside the owning set; which banned ones count as usable is not judged here
-							for i := 0; i < nrep; i++ {
-								if rec.Addr == fmt.Sprintf("10.0.1.%d:7000", i+1) {
-									ok = true
+						var l []string
+						for a := range set {
+							l = append(l, a)
+						}
+						sort.Strings(l)
+						return strings.Join(l, ",")
+					}
+					sc.Check = func(w *world.World) []world.Violation {
+						var vs []world.Violation
+						for _, rec := range w.DataCmds("") {
+							if !hasKey(rec.Args, key) {
+								continue
+							}
+							ok := rec.Addr == AddrA
+							if !write {
+								// any replica of A is inside the owning set; which banned ones count as usable is not judged here
+								for i := 0; i < nrep; i++ {
+									if rec.Addr == fmt.Sprintf("10.0.1.%d:7000", i+1) {
+										ok = true
+									}
+								}
+							}
+							if !ok {
+								sig := "foreign-node-selected"
+								if write {
+									sig = "write-not-to-master"
+								}
+								vs = append(vs, world.Violation{Sig: sig, Msg: fmt.Sprintf("%q sent to %s (healthy replicas of the owning master: %v)", rec.Raw, rec.Addr, hl)})
+							}
+						}
+						if len(vs) == 0 {
+							vs = CheckStreams(w, StreamOpts{})
+						}
+						return vs
+					}
+					sc.Final = func(obs map[string]int) []world.Violation {
+						if write {
+							return nil
+						}
+						// union, over all random outcomes and all reads of the run, of the nodes that served a read
+						served := map[string]bool{}
+						for k := range obs {
+							for _, a := range strings.Split(k, ",") {
+								if a != "" {
+									served[a] = true
 								}
 							}
 						}
-						if !ok {
-							sig := "foreign-node-selected"
-							if write {
-								sig = "write-not-to-master"
+						var missing, seen []string
+						for _, h := range hl {
+							if !served[h] {
+								missing = append(missing, h)
 							}
-							vs = append(vs, world.Violation{Sig: sig, Msg: fmt.Sprintf("%q sent to %s (healthy replicas of the owning master: %v)", rec.Raw, rec.Addr, hl)})
 						}
-					}
-					if len(vs) == 0 {
-						vs = CheckStreams(w, StreamOpts{})
-					}
-					return vs
-				}
-				sc.Final = func(obs map[string]int) []world.Violation {
-					if write {
+						for a := range served {
+							seen = append(seen, a)
+						}
+						sort.Strings(seen)
+						if len(missing) > 0 {
+							sig := "healthy-replica-unreachable"
+							if len(seen) == 1 {
+								sig = "only-one-replica-ever-selected"
+							}
+							return []world.Violation{{Sig: sig, Msg: fmt.Sprintf("over ALL outcomes of the random choices of a run of reads, reads of a slot of master A are only ever served by {%s}; healthy replicas never selected: %v", strings.Join(seen, ", "), missing)}}
+						}
 						return nil
 					}
-					// union, over all random outcomes and all reads of the run, of the nodes that served a read
-					served := map[string]bool{}
-					for k := range obs {
-						for _, a := range strings.Split(k, ",") {
-							if a != "" {
-								served[a] = true
-							}
-						}
-					}
-					var missing, seen []string
-					for _, h := range hl {
-						if !served[h] {
-							missing = append(missing, h)
-						}
-					}
-					for a := range served {
-						seen = append(seen, a)
-					}
-					sort.Strings(seen)
-					if len(missing) > 0 {
-						sig := "healthy-replica-unreachable"
-						if len(seen) == 1 {
-							sig = "only-one-replica-ever-selected"
-						}
-						return []world.Violation{{Sig: sig, Msg: fmt.Sprintf("over ALL outcomes of the random choices of a run of reads, reads of a slot of master A are only ever served by {%s}; healthy replicas never selected: %v", strings.Join(seen, ", "), missing)}}
-					}
-					return nil
+					out = append(out, sc)
 				}
-				out = append(out, sc)
 			}
 		}
 	}
@@ -804,7 +811,7 @@ func init() {
 		Scenarios: c16Scenarios, BudgetQuick: 100, BudgetThorough: 1500,
 		Assumptions: []string{"a node that stalls on one command does not answer later commands on the same connection either (Redis executes sequentially)", "virtual clock; msgTimeout only runs after an event, so a wake-up request follows the tick"}})
 	register(&Check{ID: "C20", Level: "model_checking",
-		Rule:      "topologies with 2 and 3 replicas of master A; every subset of replicas banned by the health monitor leaving >= 2 healthy; a closed-loop run of GET / MGET-fragment reads (and SET / HSCAN, master-only) routed under EVERY outcome of every random choice (choice enumeration, not sampling); oracle: per execution the node belongs to the owning set and is healthy (master for writes); across all outcomes (and all reads of a short run) every healthy replica serves some read; after a replica is re-parented by a topology update it serves its new master's slots and not the old one's; distinct = observable outcomes",
+		Rule:      "topologies with 2 and 3 replicas of master A; every subset of replicas banned by the health monitor leaving >= 2 healthy; a closed-loop run of GET / MGET-fragment reads (and SET / HSCAN, master-only) routed under EVERY outcome of every random choice (choice enumeration, not sampling); oracle: per execution the node belongs to the owning set and is healthy (master for writes); across all outcomes (and all reads of a short run) every healthy replica serves some read; after a replica is re-parented by a topology update it serves its new master's slots and not the old one's; distinct = observable outcomes; nodes behave like cluster nodes (a replica serves a read only on a READONLY connection, else -MOVED to its master; a read counts as served by the node that answered it with data), with and without a configured password",
 		Scenarios: c20Scenarios, BudgetQuick: 60, BudgetThorough: 600,
 		Assumptions: []string{"possibilistic core of the statistical claim: under a fair generator every selectable replica serves some reads in a long run iff it is selected by at least one outcome", "healthy = not flagged by the health monitor; ban-lifting semantics are not part of the oracle"}})
 }
